@@ -45,14 +45,35 @@ Section C03.
   Notation cview := (cview r_filter).
   Notation vstream := (vstream r_filter).
 
-  (* Collection.Pull with any read mask (seeded, no include predicate), subscription opened at any
-     schedule position: once every call has returned, the folded view is List with the same mask —
-     nothing missed, nothing duplicated into a wrong state *)
+  (* Collection.Pull, seeded, with any read mask and any include predicate, subscription opened at
+     any schedule position: once every call has returned, the folded view is List with the same
+     mask and predicate — nothing missed, nothing duplicated into a wrong state *)
   Theorem C03_collection_converges_without_overlap : forall sched u,
     let s := run sched s0 in
     st_overlap s = false -> all_done s = true -> In u (st_csubs s) -> plain_sub u ->
-    forall id, vlookup id (cview u) = vlookup id (c_list r_filter (w_c (st_w s)) (ro_mask (cs_ro u)) None).
+    forall id, vlookup id (cview u) =
+               vlookup id (c_list r_filter (w_c (st_w s)) (ro_mask (cs_ro u)) (ro_include (cs_ro u))).
   Proof. apply converges_collection; assumption. Qed.
+
+  (* Collection.Pull with updates-only (no seed, any read mask, no include predicate): the folded
+     view agrees with List at every id that any delivered event mentioned *)
+  Theorem C03_collection_updates_only_converges_without_overlap : forall sched u,
+    let s := run sched s0 in
+    st_overlap s = false -> all_done s = true -> In u (st_csubs s) -> uo_sub u ->
+    forall id, touched u id ->
+               vlookup id (cview u) = vlookup id (c_list r_filter (w_c (st_w s)) (ro_mask (cs_ro u)) None).
+  Proof. apply converges_collection_updates_only; assumption. Qed.
+
+  (* Collection.PullID (seeded; its inner Pull is opened by a goroutine of its own, i.e. at any later
+     schedule position): unless the subscription has ended — which happens exactly when a change
+     removes the item (Props/C04.v: C04_pull_id_closed_iff_removed) — the last value delivered is
+     the item's value in List, and nothing is delivered for an item that is absent *)
+  Theorem C03_pull_id_converges_without_overlap : forall sched u id vs,
+    let s := run sched s0 in
+    st_overlap s = false -> all_done s = true -> In u (st_csubs s) -> plain_sub u ->
+    pull_id_from id (cstream r_filter u) = (vs, false) ->
+    last_value vs = vlookup id (c_list r_filter (w_c (st_w s)) (ro_mask (cs_ro u)) (ro_include (cs_ro u))).
+  Proof. apply converges_pull_id; assumption. Qed.
 
   (* Value.Pull with any read mask and updates-only setting: the last event delivered is the final
      value (for updates-only: provided anything was delivered) *)
@@ -82,6 +103,8 @@ End C03.
 
 Print Assumptions C03_collection_converges_without_overlap.
 Print Assumptions C03_value_converges_without_overlap.
+Print Assumptions C03_pull_id_converges_without_overlap.
+Print Assumptions C03_collection_updates_only_converges_without_overlap.
 Print Assumptions C03_single_writer_converges_partial.
 Print Assumptions C03_concurrent_deletes_converge.
 
@@ -99,7 +122,7 @@ Theorem C03_multi_writer_refuted :
   map (fun u => last_value (vstream fr_filter u)) (st_vsubs s) = [Some (mkF 1 0 0)] /\
   C03_ok (CaseSched None None [] two_sets [2; 0; 0; 1; 1; 1; 0]%nat
             [mkFO (Some (mkF 1 0 0)) 0; mkFO (Some (mkF 2 0 0)) 0; mkFO None 0] (Some (mkF 2 0 0)) []
-            [(2%nat, [mkOV (mkF 2 0 0) 1020 false false; mkOV (mkF 1 0 0) 1010 false false])] []) = false.
+            [(2%nat, [mkOV (mkF 2 0 0) 1020 false false; mkOV (mkF 1 0 0) 1010 false false])] [] []) = false.
 Proof. vm_compute. repeat split; reflexivity. Qed.
 Print Assumptions C03_multi_writer_refuted.
 
